@@ -7,6 +7,7 @@
 pub mod chanlib;
 pub mod fx;
 pub mod jout;
+pub mod nodelib;
 
 pub use fx::*;
 pub use jout::*;
